@@ -80,7 +80,7 @@ def expect_vec(c, what, R_, n, elem, must_be_fresh=True):
 
 
 ENGINE_MODES = ("explicit", "current")
-P_B = ("C01", "C10", "C12", "C13", "C16")
+P_B = ("C01", "C03", "C10", "C12", "C13", "C16")
 
 
 def tasks_readers():
